@@ -136,6 +136,32 @@ def check_shape(t, shape, rot=0, only=None, extras=True, kind="node"):
                 t.violation("C13: custom functions / options / indent do not appear verbatim",
                             dict(ctx, engine="E2", module=MOD, custom=True, indent=indent, start=start, names=names,
                                  expected=exp + exp_edges, observed=lines, stop=[], filtered_out=[], maxlevel=None))
+    # options may be any iterable; custom functions are asked about admitted nodes / admitted pairs only
+    hid = m.n - 1
+
+    def guardf(f):
+        def g(*nds):
+            if any(idm(x) == hid for x in nds):
+                raise RuntimeError("custom function called for the filtered-out node %d" % hid)
+            return f(*nds)
+        return g
+    if m.n > 1:
+        for opts in (tuple(options), (o for o in options)):
+            e = MermaidExporter(nodes[0], graph="flowchart", name="LR", options=opts, indent=1, nodenamefunc=guardf(namef),
+                                nodefunc=guardf(nodef), edgefunc=guardf(edgef), filter_=lambda n: idm(n) != hid)
+            try:
+                lines = list(e)
+            except RuntimeError as exc:
+                lines = ["<raised: %s>" % exc]
+            declared, edges, _ = reference(m, 0, (), (hid,), None)
+            exp = ["flowchart LR"] + [" " + o for o in options] + [" id%d" % v + (('("%s")' % names[v]) if v % 3 else "") for v in declared]
+            exp_edges = [" id%d" % p + (("--%d-->" % c if c % 2 else "---") if c % 3 else "") + "id%d" % c for p, c in edges]
+            t.c["evaluations"] += 1
+            t.c["custom_function_exports"] += 1
+            if lines[: len(exp)] != exp or sorted(lines[len(exp):]) != sorted(exp_edges):
+                t.violation("C13: options given as tuple/generator or custom functions with a filter do not give the specified lines",
+                            dict(ctx, engine="E2", module=MOD, custom=True, indent=1, start=0, names=names, expected=exp + exp_edges,
+                                 observed=lines, stop=[], filtered_out=[hid], maxlevel=None))
     # to_file fence
     e = MermaidExporter(nodes[0])
     with tempfile.TemporaryDirectory(prefix="verif-c13-") as d:
